@@ -128,8 +128,12 @@ func (db *DBResource) init() {
 	ctx := context.Background()
 	conn, err := db.connector.Connect(ctx)
 	if err != nil {
+		// the database is not reachable right now: the version stays unknown
 		log.Errorf("connect: %w", err)
+		return
 	}
+	// the probe connection is not handed to anybody
+	defer conn.Close()
 	version, err := selectDBVersion(ctx, conn)
 	if err != nil {
 		log.Errorf("select db version: %w", err)
